@@ -21,7 +21,8 @@ ASSUMPTIONS = ["'last activity' is taken from the harness' view of when data was
 TECHNIQUE = "deterministic simulation: real main() on a virtual clock, seeded traffic patterns, bounded-time oracle on close instants"
 G_US = 3_000_000
 LOW_SLACK_US = 150_000
-VALUES = [None, 0, 1, 2, 5, 30, 600, 3600]
+VALUES = [None, 0, 1, 2, 5, 30, 600, 3600, None, 0, 1, 2, 5, 30, 600, 3600, 10 ** 10, 18446744073709552, 2 ** 63]   # the last ones: "practically never"
+HUGE = 10 ** 9
 KINDS = [("http", 3), ("socks5", 2), ("socks4", 1), ("reverse", 2), ("tproxy", 1), ("quic", 1), ("socks5udp", 2), ("reverseudp", 2), ("httpudp", 2)]
 
 
@@ -55,13 +56,24 @@ def gen(rng, tier, i):
     pattern = rng.choice(["silent", "trickle-c2s", "trickle-s2c", "burst", "alternate"])
     rounds = rng.randint(1, 4)
     # period of the trickle: just under T (or arbitrary when T = 0 / huge)
-    if T == 0:
+    if T == 0 or T >= HUGE:
         period_ms = rng.choice([1000, 60000, 900000])
     else:
         period_ms = max(1, int(T * 1000 * rng.choice([0.5, 0.9, 0.97])) - rng.choice([0, 5, 50]))
         if T * 1000 - period_ms < 40:
             period_ms = max(1, T * 1000 - 40)
-    horizon_ms = (T * 1000 + 30000) if T > 0 else 4 * 3600 * 1000
+    horizon_ms = (T * 1000 + 30000) if 0 < T < HUGE else 4 * 3600 * 1000
+    # the wall clock may jump while the tunnel exists (operator, NTP step): idleness is elapsed time, not a difference of dates
+    # (not for reverse-UDP sessions: their end is only observable through the record's wall-clock timestamps)
+    if rng.random() < 0.3 and kind != "reverseudp":
+        tt = T if 0 < T < HUGE else 60
+        for _ in range(rng.randint(1, 2)):
+            sc.faults.append({"at_ms": rng.randint(200, max(300, min(horizon_ms, tt * 3000))), "kind": "clock_step",
+                              "ms": rng.choice([-(tt + 1) * 1000, (tt + 1) * 1000, -3600000, 3600000, -500, 86400000, -(tt * 1000) // 2])})
+    # a client that takes its time before it sends the request: the tunnel is young when it is established, however old the connection is
+    pre_wait = 0
+    if 0 < T <= 30 and kind in ("http", "socks5", "socks4") and rng.random() < 0.25:
+        pre_wait = rng.choice([T * 1000 + 500, 2 * T * 1000, T * 1000 - 200])
     meta = {"cls": "%s/%s" % (kind, pattern), "cfgkey": "%s/%s/i%s/u%s" % (kind, pattern, idle, udp), "kind": kind, "T": T, "pattern": pattern, "idle": idle, "udp": udp}
     oaddr = "%s:%d" % (sc.origin_ip(), sc.port())
     if not is_udp:
@@ -77,6 +89,8 @@ def gen(rng, tier, i):
             li = sc.add_quic_listener("l")
         host, port = oaddr.split(":")
         hs, proto = sc.client_handshake(li, host, int(port), variant={"socks5": "5", "socks4": "4"}.get(kind))
+        if pre_wait:
+            hs = [op("sleep", ms=pre_wait)] + hs
         cw, cr, ow, orr = [], [], [], []
         # traffic scripts: the sender writes one byte then sleeps; the receiver reads one byte each round
         def trickle(sender_w, recv_r, n):
@@ -256,10 +270,18 @@ def oracle(plan, out):
     base = a if a is not None else start
     if a is not None and a < start:
         base = start
+    # a tunnel is as old as its establishment (the moment the client was told so), not as its TCP connection
+    est = R.op_by_label(meta.get("cid") or "c", "reply")
+    if est is not None and est.get("res") == "ok" and est["t1"] > base:
+        base = est["t1"]
     end_us = R.res.get("end_us", 0)
     if T == 0:
         if close_t is not None:
             v("closed-though-disabled", "timeout 0 (disabled) but the proxy closed the tunnel at %.3fs (last activity %.3fs)" % (close_t / 1e6, base / 1e6))
+        return V
+    if T >= HUGE:
+        if close_t is not None:
+            v("early-close", "configured %d s (practically never): the proxy closed the tunnel at %.3fs, last activity %.3fs" % (T, close_t / 1e6, base / 1e6))
         return V
     lo = base + T * 1_000_000 - LOW_SLACK_US
     hi = base + T * 1_000_000 + G_US
